@@ -15,7 +15,10 @@ the code as repaired (patches/C01-01: has_commit_run_req_ cleared when the event
 The local deques of cleanupDeferredTasks (run_next_tasks, then run_in_loop_tasks) are one list
 `dQ = nextQ ++ inLoopQ` (they are executed back to back).  `executed`, `cancelled`, `log`,
 `exitPending`, `Task.owner` are ghost (history) fields: no step reads them.
-Not modelled: RunId wrap-around at 2^64, eventfd creation failure, exceptions thrown by callables.
+`cfg.clearOnClose` / the `throw` act follow the repaired code (patches/C01-01, C01-02); `stepFound`
+gives the behaviour of the code as found for the counterexamples.
+Not modelled: RunId wrap-around at 2^64 (theorems carry `NoWrap`), eventfd creation failure, nested runLoop,
+exitLoop() from a thread other than the loop thread (unsynchronised in the code: see plugin ASSUMPTIONS).
 -/
 namespace Tbox.C01
 
@@ -24,6 +27,8 @@ inductive Act where
   | next (k : Nat)        -- loop->runNext(task k)
   | cancel (id : Nat)     -- loop->cancel(id)
   | exit                  -- loop->exitLoop()
+  | exitLater             -- loop->exitLoop(wait_time > 0): arms the exit timer
+  | throw                 -- the callable throws: the rest of its script is not executed
 deriving Repr, DecidableEq
 
 structure Task where
@@ -63,6 +68,7 @@ structure State where
   hasCommit : Bool := false        -- has_commit_run_req_       (lock_)
   efd : Option Nat := none         -- run_event_fd_ / sp_run_read_event_: counter, none = no fd (lock_)
   keepRunning : Bool := true       -- keep_running_
+  exitTimer : Bool := false        -- sp_exit_timer_ exists and is enabled (armed, not fired yet)
   wakeSeen : Bool := false         -- the poll reported the eventfd readable
   inAlloc : Nat := 0               -- run_in_loop_id_alloc_     (lock_)
   nextAlloc : Nat := 1             -- run_next_id_alloc_
@@ -116,12 +122,23 @@ def cancel (s : State) (id : Nat) : State :=
     else { s with inLoopQ := removeId s.inLoopQ id }
   { s1 with cancelled := if ok then id :: s.cancelled else s.cancelled, log := .cancel id ok :: s.log }
 
+/-- head of `exitLoop`: `sp_exit_timer_->disable()` + delete.  Disabling an armed timer goes through
+`deleteTimer`, which frees the timer record later through the loop's own `run()` — on the loop thread /
+with the loop idle that is `runNext`: the loop itself submits a deferred task (empty script here), taking
+an odd run id. -/
+def dropExitTimer (s : State) (tid : Nat) : State :=
+  if s.exitTimer then { submitNext s tid [] with exitTimer := false } else s
+
 /-- one API call made by thread `tid` (the loop thread, or the owner while the loop is idle) -/
 def doAct (cfg : Cfg) (s : State) (tid : Nat) : Act → State
   | .inLoop k => submitInLoop s tid (cfg.prog k)
   | .next k => submitNext s tid (cfg.prog k)
   | .cancel id => cancel s id
-  | .exit => { s with keepRunning := false }
+  | .exit => { dropExitTimer s tid with keepRunning := false }          -- wait_time == 0: stopLoop()
+  | .exitLater => { dropExitTimer s tid with exitTimer := true }        -- new one-shot timer whose callback is stopLoop()
+  -- the exception is caught around the call (`CatchThrow(item.func, true)`, patches/C01-02): the rest of
+  -- the callable is skipped, the batch goes on (outside a callable `cur` is already empty)
+  | .throw => { s with cur := [] }
 
 inductive Step where
   | submit (tid k : Nat)            -- runInLoop from any thread that is not inside a loop-thread step
@@ -129,6 +146,7 @@ inductive Step where
   | loopStart (tid : Nat) (forever : Bool)   -- runLoop: runThisBeforeLoop
   | passBegin                       -- epoll_wait/select returns (any reason)
   | cbAct (a : Act)                 -- API call from a timer/fd callback of the pass
+  | timerExit                       -- the exit timer fires (handleExpiredTimers): stopLoop()
   | passWake                        -- eventfd callback: swap, read eventfd, clear the flag (lock_)
   | passSkip                        -- eventfd not reported in this pass
   | execFront                       -- pop the batch front, call it
@@ -149,6 +167,7 @@ def valid (s : State) : Step → Bool
   | .loopStart _ _ => s.phase == .idle
   | .passBegin => s.phase == .poll
   | .cbAct _ => (s.phase == .pre || s.phase == .wake) && s.cur.isEmpty && s.tmpQ.isEmpty
+  | .timerExit => s.phase == .pre && s.exitTimer
   | .passWake => s.phase == .pre && s.wakeSeen
   | .passSkip => s.phase == .pre && !s.wakeSeen
   | .execFront => (s.phase == .wake || s.phase == .next) && s.cur.isEmpty && !s.tmpQ.isEmpty
@@ -170,6 +189,7 @@ def step (cfg : Cfg) (s : State) : Step → State
       { s2 with keepRunning := forever, phase := .poll }
   | .passBegin => { s with phase := .pre, wakeSeen := match s.efd with | some n => decide (0 < n) | none => false }
   | .cbAct a => doAct cfg s s.loopTid a
+  | .timerExit => { s with exitTimer := false, keepRunning := false }   -- one-shot: record freed, callback stopLoop()
   | .passWake =>
       -- swap(run_in_loop_func_queue_, tmp_func_queue_); finishRunRequest(): read() zeroes the counter
       { s with inLoopQ := s.tmpQ, tmpQ := s.inLoopQ, efd := s.efd.map (fun _ => 0), hasCommit := false, phase := .wake }
@@ -210,6 +230,21 @@ def exec (cfg : Cfg) (s : State) : List Step → Option State
   | st :: sts => if valid s st then exec cfg (step cfg s st) sts else none
 
 def init : State := {}
+
+/-- the code before patches/C01-02: nothing catches around `item.func()`.  An exception thrown by a
+callable of the shutdown drain unwinds `cleanupDeferredTasks`: its local deques — the rest of the
+generation — are destroyed without being called, and the exception leaves runLoop()/the destructor. -/
+def stepFound (cfg : Cfg) (s : State) : Step → State
+  | .act =>
+      match s.cur with
+      | .throw :: _ => if s.phase == .drain then { s with cur := [], dQ := [], phase := if s.destroying then .dead else .idle }
+                       else { s with cur := [] }
+      | _ => step cfg s .act
+  | st => step cfg s st
+
+def execFound (cfg : Cfg) (s : State) : List Step → Option State
+  | [] => some s
+  | st :: sts => if valid s st then execFound cfg (stepFound cfg s st) sts else none
 
 /-- the code as repaired (the tree the check passes on) -/
 def fixedCfg (prog : Nat → List Act) : Cfg := { clearOnClose := true, prog := prog }
